@@ -173,6 +173,20 @@ class Repo:
         m, c = cls_qual.split('.', 1)
         return self.consts[m]['classes'][c]['mro']
 
+    def lookup_member(self, cls_qual, name):
+        """python attribute lookup on the class: first class in the MRO that defines `name`
+        -> ('func', qual) | ('attr', value) | None"""
+        for b in self.mro(cls_qual):
+            q = b + '.' + name
+            if q in self.funcs:
+                return ('func', q)
+            bm, _, bc = b.partition('.')
+            if bm in self.consts and bc in self.consts[bm]['classes']:
+                a = self.consts[bm]['classes'][bc]['attrs']
+                if name in a:
+                    return ('attr', decode(a[name]))
+        return None
+
     def resolve_method(self, cls_qual, name):
         for b in self.mro(cls_qual):
             q = b + '.' + name
